@@ -5,7 +5,9 @@
 From Coq Require Import List NArith Arith Lia Bool.
 From XmlRs Require Import Base.CPred Model.Peg Model.ParseActions Model.Info Model.DomView
   Proofs.XmlWFSyntaxLex Proofs.XmlWFSyntaxCheck Proofs.DomViewBase Proofs.DomViewDoc.
-From XmlRs Require Spec.XmlWF Spec.Infoset Proofs.XmlWFSyntaxConvCheck Proofs.XmlWFSyntaxRenderDoc Proofs.XmlWFSyntaxRenderTokens Proofs.DomViewRender.
+From XmlRs Require Spec.XmlWF Spec.Infoset Proofs.XmlWFSyntaxConvCheck Proofs.XmlWFSyntaxRenderDoc Proofs.XmlWFSyntaxRenderTokens Proofs.DomViewRender
+  Proofs.XmlWFSyntaxDtd Proofs.XmlWFSyntaxDtdDoc Proofs.XmlWFSyntaxDtdCheck Proofs.XmlWFSyntaxConvDtdDoc Proofs.XmlWFSyntaxConvDtdCheck
+  Proofs.XmlWFSyntaxRenderDtdDoc Proofs.XmlWFSyntaxRenderDtdWf Proofs.DomViewDtdDoc Proofs.DomViewRenderDtd.
 Import ListNotations.
 Local Open Scope N_scope.
 
@@ -33,6 +35,71 @@ Proof.
   split; [|split].
   - destruct (Proofs.XmlWFSyntaxRenderTokens.render_infoset_nodoctype d c Hv Hdt) as (xd' & root' & Hp' & _ & Hc' & Ht').
     rewrite Hp in Hp'. injection Hp' as <-. rewrite Hc in Hc'. injection Hc' as <-. rewrite Hraw. exact Ht'.
+  - exact Hm2.
+  - intros Hkn. unfold R.Known_WF14 in Hkn. apply orb_false_iff in Hkn. destruct Hkn as [Hne Hkn]. apply negb_false_iff in Hkn.
+    rewrite (Hm2 Hne). apply denote2_same. exact Hkn.
+Qed.
+
+(** ** rungs (ii), (iii): with a document type declaration *)
+Module RD := Proofs.DomViewRenderDtd.
+Module DD := Proofs.DomViewDtdDoc.
+
+Definition Known_C01 (d : Infoset.adoc) : bool := R.Known_WF14 d || RD.Known_ATTR d.
+
+Theorem dom_view_render_dtd (d : Infoset.adoc) (c : Infoset.choices) dt (doc : document) :
+  Infoset.valid d = true -> Infoset.a_doctype d = Some dt ->
+  Proofs.XmlWFSyntaxRenderDtdWf.no_predef_decl (Infoset.opt_list (Infoset.ad_subset dt)) = true ->
+  Proofs.XmlWFSyntaxRenderDtdWf.no_cdend (Infoset.opt_list (Infoset.ad_subset dt)) = true ->
+  W.e_must_declare (W.doc_env (Infoset.to_xdoc d)) = true ->
+  from_raw (Infoset.render d c) = OOk ([], doc) -> RD.Known_ATTR d = false ->
+  dom_view false doc = Infoset.denote d
+  /\ (R.has_empty_text (Infoset.a_root d) = false -> dom_view true doc = R.denote2 d)
+  /\ (R.Known_WF14 d = false -> dom_view true doc = Infoset.denote d).
+Proof.
+  intros Hv Hdt Hnp Hcd Hmust H Hka.
+  destruct (Proofs.XmlWFSyntaxRenderDtdWf.render_wf_dtd d c dt Hv Hdt Hnp) as [Hwf Hstrict].
+  pose proof Hv as Hv0. unfold Infoset.valid in Hv0. apply andb_true_iff in Hv0. destruct Hv0 as [Hs _].
+  destruct (Proofs.XmlWFSyntaxRenderDtdDoc.render_parse_dtd d c dt Hs Hdt) as (item & l' & Hrd & Hl' & Hq).
+  pose proof (Proofs.XmlWFSyntaxConvDtdDoc.q_parse_document_spec _ _ Hq) as Hp.
+  assert (Hdecls : forallb Infoset.decl_ok (Infoset.opt_list (Infoset.ad_subset dt)) = true).
+  { pose proof Hs as Hs'. unfold Infoset.shape_ok in Hs'. rewrite Hdt in Hs'. apply andb_true_iff in Hs'. destruct Hs' as [_ Hs'].
+    do 2 (apply andb_true_iff in Hs'; destruct Hs' as [Hs' _]). apply andb_true_iff in Hs'. tauto. }
+  assert (Hconv : Proofs.XmlWFSyntaxConvDtdCheck.conv_hyps (Infoset.render d c) = true).
+  { destruct (Proofs.XmlWFSyntaxRenderDtdWf.conv_hyps_read _ _ Hl' Hdecls Hcd) as [H1 H2].
+    unfold Proofs.XmlWFSyntaxConvDtdCheck.conv_hyps. rewrite Hp. cbn [W.x_doctype W.dt_subset]. rewrite H1, H2, !andb_true_r.
+    destruct d as [ver enc sa m1 dt0 m2 root m3]. cbn [Infoset.a_doctype] in Hdt. subst dt0. exact Hmust. }
+  destruct (Proofs.XmlWFSyntaxConvDtdCheck.wf_accepted_side _ Hwf Hstrict Hconv) as [Hk _].
+  destruct (Proofs.XmlWFSyntaxDtdCheck.accepted_syntax _ doc H Hk) as [pd [Hpp [Hb Hsyn]]].
+  unfold Proofs.XmlWFSyntaxDtdCheck.KnownD04_doc in Hk. rewrite Hpp in Hk. apply negb_false_iff in Hk.
+  pose proof (Proofs.XmlWFSyntaxDtdCheck.build_document_ok pd doc Hb Hk) as Hok.
+  rewrite Hp in Hsyn. apply (f_equal (fun o => match o with Some x => x | None => Proofs.XmlWFSyntaxDtdDoc.x_doc pd end)) in Hsyn. cbv beta iota in Hsyn. rename Hsyn into Hxd.
+  (* the typed document has the document type declaration that was read back *)
+  destruct (pr_declaration_doc (d_prolog pd)) as [dd|] eqn:Hdd; [|pose proof (f_equal W.x_doctype Hxd) as E; unfold Proofs.XmlWFSyntaxDtdDoc.x_doc in E; cbn [W.x_doctype] in E; rewrite Hdd in E; discriminate E].
+  assert (Hxdt : Proofs.XmlWFSyntaxDtdDoc.x_doctype dd = {| W.dt_name := Infoset.ad_name dt; W.dt_extid := W.extid_of (Infoset.ad_pub dt) (Infoset.ad_sys dt); W.dt_subset := l' |}).
+  { pose proof (f_equal W.x_doctype Hxd) as E. unfold Proofs.XmlWFSyntaxDtdDoc.x_doc in E. cbn [W.x_doctype] in E. rewrite Hdd in E. cbn [option_map] in E.
+    apply (f_equal (fun o => match o with Some x => x | None => Proofs.XmlWFSyntaxDtdDoc.x_doctype dd end)) in E. cbv beta iota in E. symmetry. exact E. }
+  assert (Eext : option_map Proofs.XmlWFSyntaxDtd.x_extid (dd_external_id dd) = W.extid_of (Infoset.ad_pub dt) (Infoset.ad_sys dt)) by (apply (f_equal W.dt_extid) in Hxdt; exact Hxdt).
+  assert (Esub : Proofs.XmlWFSyntaxDtdDoc.x_subset (dd_internal_subset dd) = l') by (apply (f_equal W.dt_subset) in Hxdt; exact Hxdt).
+  assert (Emust : W.e_must_declare (W.doc_env (Proofs.XmlWFSyntaxDtdDoc.x_doc pd)) = true).
+  { rewrite <- Hxd. destruct d as [ver enc sa m1 dt0 m2 root m3]. cbn [Infoset.a_doctype] in Hdt. subst dt0. exact Hmust. }
+  assert (Hhyps : DD.dtd_hyps (W.e_must_declare (W.doc_env (Proofs.XmlWFSyntaxDtdDoc.x_doc pd))) (option_map Proofs.XmlWFSyntaxDtd.x_extid (dd_external_id dd))
+                               (Proofs.XmlWFSyntaxDtdDoc.x_subset (dd_internal_subset dd))).
+  { destruct (RD.hyps_read d dt l' Hs Hdt Hnp Hcd Hmust Hl') as [_ G2 G3 G4 G5 G6 G7]. rewrite Eext, Esub. constructor; assumption. }
+  destruct (DD.view_doctype_pd pd doc dd (parsed_doc_ok _ _ _ Hpp) Hok Hb Hdd Hhyps) as (root & Hc & Hviews).
+  (* the tree is good *)
+  destruct (RD.render_good_dtd d c dt Hv Hdt Hnp Hka) as (xd1 & root1 & Hp1 & Hc1 & Hg1).
+  assert (Exd1 : xd1 = Proofs.XmlWFSyntaxDtdDoc.x_doc pd) by (rewrite Hp in Hp1; apply (f_equal (fun o => match o with Some x => x | None => xd1 end)) in Hp1; cbv beta iota in Hp1; rewrite <- Hp1; exact Hxd).
+  subst xd1. rewrite Hc in Hc1. injection Hc1 as <-.
+  unfold Proofs.XmlWFSyntaxDtdDoc.x_doc in Hg1. cbn [W.x_doctype] in Hg1. rewrite Hdd in Hg1. cbn [option_map Proofs.XmlWFSyntaxDtdDoc.x_doctype W.dt_subset] in Hg1.
+  destruct (Hviews Hg1) as [Hraw Hmer].
+  assert (Hm2 : R.has_empty_text (Infoset.a_root d) = false -> dom_view true doc = R.denote2 d).
+  { intros Hne. destruct (R.render_infoset2_dtd d c dt Hv Hdt Hnp Hne) as (xd2 & root2 & Hp2 & _ & Hc2 & Ht2).
+    assert (Exd2 : xd2 = Proofs.XmlWFSyntaxDtdDoc.x_doc pd) by (rewrite Hp in Hp2; apply (f_equal (fun o => match o with Some x => x | None => xd2 end)) in Hp2; cbv beta iota in Hp2; rewrite <- Hp2; exact Hxd).
+    subst xd2. rewrite Hc in Hc2. injection Hc2 as <-. rewrite Hmer. exact Ht2. }
+  split; [|split].
+  - destruct (Proofs.XmlWFSyntaxRenderTokens.render_infoset_dtd d c dt Hv Hdt Hnp) as (xd2 & root2 & Hp2 & _ & Hc2 & Ht2).
+    assert (Exd2 : xd2 = Proofs.XmlWFSyntaxDtdDoc.x_doc pd) by (rewrite Hp in Hp2; apply (f_equal (fun o => match o with Some x => x | None => xd2 end)) in Hp2; cbv beta iota in Hp2; rewrite <- Hp2; exact Hxd).
+    subst xd2. rewrite Hc in Hc2. injection Hc2 as <-. rewrite Hraw. exact Ht2.
   - exact Hm2.
   - intros Hkn. unfold R.Known_WF14 in Hkn. apply orb_false_iff in Hkn. destruct Hkn as [Hne Hkn]. apply negb_false_iff in Hkn.
     rewrite (Hm2 Hne). apply denote2_same. exact Hkn.
